@@ -244,7 +244,18 @@ static NOINSTR void maybe_yield(struct ctx *c) {
     c->yrng = c->yrng * 6364136223846793005ull + 1442695040888963407ull;
     if(((c->yrng >> 33) & 3) == 0) sched_yield();
 }
-#define OP(c, name) do { (c)->op = (name); (c)->nops++; maybe_yield(c); } while(0)
+/* ro/cov mode: library calls per operation label (labels are string literals: keyed by address) */
+#define MAXOPL 160
+static struct { const char *name; unsigned long n; } OPL[MAXOPL];
+static int COUNT_OPS;
+static NOINSTR void count_op(const char *name) {
+    int i;
+    for(i = 0; i < MAXOPL; i++) {
+        if(OPL[i].name == name) { OPL[i].n++; return; }
+        if(!OPL[i].name) { OPL[i].name = name; OPL[i].n = 1; return; }
+    }
+}
+#define OP(c, name) do { (c)->op = (name); (c)->nops++; if(COUNT_OPS) count_op(name); maybe_yield(c); } while(0)
 
 static const struct { enum asn_transfer_syntax enc, dec; const char *name; int per, oer, xer; } SYN[] = {
     {ATS_DER, ATS_BER, "der", 0, 0, 0},
@@ -778,6 +789,8 @@ static NOINSTR void one_round(struct ctx *c, int ti) {
         er = der_encode(td, st, cb_buf, &out); lnum(L, "der", (long)er.encoded);
         OP(c, "der_encode_to_buffer");
         er = der_encode_to_buffer(td, st, fixed, sizeof fixed); lnum(L, "derb", (long)er.encoded);
+        OP(c, "der_encode(no callback: size only)");
+        er = der_encode(td, st, 0, 0); lnum(L, "dersz", (long)er.encoded);
         OP(c, "ber_decode");
         st2 = 0; rv = ber_decode(0, td, &st2, out.p, out.n); lnum(L, "ber", rv.code);
         if(rv.code == RC_OK && st2) {
@@ -831,6 +844,8 @@ static NOINSTR void one_round(struct ctx *c, int ti) {
             out.n = 0;
             OP(c, "uper_encode");
             er = uper_encode(td, 0, st, cb_buf, &out); lnum(L, "uper", (long)er.encoded);
+            OP(c, "uper_encode(no callback: size only)");
+            er = uper_encode(td, 0, st, 0, 0); lnum(L, "upersz", (long)er.encoded);
             OP(c, "uper_encode_to_buffer");
             er = uper_encode_to_buffer(td, 0, st, fixed, sizeof fixed); lnum(L, "uperb", (long)er.encoded);
             OP(c, "uper_encode_to_new_buffer");
@@ -1312,6 +1327,7 @@ static NOINSTR int main_ro(uint64_t seed, int iters, int protect) {
     memset(&c, 0, sizeof c);
     c.log.on = 0;
     COUNT_VALUES = 1;
+    COUNT_OPS = 1;
     RO_CTX = &c;
     PAGE = sysconf(_SC_PAGESIZE);
     if(protect) dl_iterate_phdr(phdr_cb, 0);
@@ -1422,6 +1438,7 @@ static NOINSTR int main_ro(uint64_t seed, int iters, int protect) {
         if(FSEEN[i]) printf("FUNC 0x%lx\n", (unsigned long)((uintptr_t)FSEEN[i] - LIB_BASE));
     for(i = 0; i < NTY; i++)
         if(!NOT_PDU[i]) printf("VAL %lu %lu %s\n", NVALID[i], NINVALID[i], TY[i]->name);
+    for(i = 0; i < MAXOPL && OPL[i].name; i++) printf("OPS %lu %s\n", OPL[i].n, OPL[i].name);
     printf("RO %s seed=%llu iters=%d types=%d ops=%lu stores=%lu distinct=%d diffs=%lu crashes=%d\n", (NEV - nev_canary || ndiff) ? "WRITTEN" : "clean",
            (unsigned long long)seed, iters, NTY, c.nops, NSTORES - nev_canary, NEV - nev_canary, ndiff, ncrash);
     fflush(stdout);
@@ -1535,8 +1552,11 @@ static NOINSTR void shape_of(const asn_TYPE_descriptor_t *td) {
     }
     if(td->op == &asn_OP_CHOICE && td->specifics) {
         const asn_CHOICE_specifics_t *sp = td->specifics;
-        printf(" choice.extensible=%d choice.canonical_order=%d choice.pres_size=%u choice.tagged=%d choice.tag2el_more=%d",
-               sp->ext_start >= 0, sp->to_canonical_order != 0, sp->pres_size, td->tags_count > 0, sp->tag2el_count > td->elements_count);
+        int hi = 0;
+        for(i = 0; i < td->elements_count; i++)
+            if(td->elements[i].tag != (ber_tlv_tag_t)-1 && BER_TAG_VALUE(td->elements[i].tag) >= 63) hi = 1;
+        printf(" choice.extensible=%d choice.canonical_order=%d choice.pres_size=%u choice.tagged=%d choice.tag2el_more=%d choice.alt_tag_ge63=%d",
+               sp->ext_start >= 0, sp->to_canonical_order != 0, sp->pres_size, td->tags_count > 0, sp->tag2el_count > td->elements_count, hi);
     }
     if(is_of_type(td) && td->specifics) {
         const asn_SET_OF_specifics_t *sp = td->specifics;
